@@ -211,8 +211,12 @@ def real_events():
     b = np.array([math.radians(x) for x in (5.0, 20.0, 20.0, 1.0, 35.0, 10.0, 20.0)])
     a = np.array([2.0, 2.0, 2.0, 0.5, 4.0, 12.0, 2.0])
     E = np.array([0.003, 1.0, 10.0, 40.0, 0.2, 700.0, 1.0])
-    la = np.array([0.1, -0.9, -0.9, 0.5, 1.2, -0.3, -0.9])
-    lo = np.array([0.2, 2.5, 2.5, -1.0, 0.7, -2.8, 2.5])  # (event 6 is a bit-identical copy of event 1)
+    # events 0 and 3 (different partitions for every partition size) sit 0.1 degree either side of the 27 N node of the
+    # cloud map at 52.70 E: in the month-7 map one cell is clear (-1.42 km) and the other overcast (16.78 km), so a cloud
+    # lookup that remembers anything between events - a memo on rounded coordinates, say - serves one of them the other's
+    # cloud top whenever the two partitions run on one shared callback object
+    la = np.array([math.radians(26.9), -0.9, -0.9, math.radians(27.1), 1.2, -0.3, -0.9])
+    lo = np.array([math.radians(52.70434782608696), 2.5, 2.5, math.radians(52.70434782608696), 0.7, -2.8, 2.5])  # (event 6 is a bit-identical copy of event 1)
     return b, a, E, la, lo
 
 
@@ -233,6 +237,25 @@ def real_kernel():
     from nuspacesim.simulation.eas_optical.cphotang import CphotAng
 
     return CphotAng(525.0)
+
+
+def real_kernel_33():
+    """a kernel for a balloon detector (everything but the reference orbit goes through the altitude scaling)"""
+    from nuspacesim.simulation.eas_optical.cphotang import CphotAng
+
+    return CphotAng(33.0)
+
+
+def real_kernel_step():
+    """a kernel re-configured after construction (coarser shower step): what travels to a worker is THIS object"""
+    from nuspacesim.simulation.eas_optical.cphotang import CphotAng
+
+    k = CphotAng(525.0)
+    k.dL = k.dtype(0.2)
+    return k
+
+
+KERNELS = {"": real_kernel, "33km": real_kernel_33, "step": real_kernel_step}
 
 
 OWNED = [("mono", 3), ("mono", 1), ("map", 3), ("map", 2), ("none", 3)]
@@ -353,8 +376,9 @@ def _real_job(a):
         cl = SiteCloud(fail_lat=float(args[3][int(pos)]), fault=int(ft))
         nex, outcomes, bad, capped = explore_config(real_kernel, args, cl, sch, w, cs, ps, None, expect_raise=True, cap=cap)
         return dict(ck=ck, ps=ps, sch=sch, w=w, cs=cs, nex=nex, outcomes=len(outcomes), bad=bad[:3], capped=capped, exp="the batch call raises", nparts=math.ceil(NREAL / ps))
-    exp = sequential(real_kernel, args, ck)
-    nex, outcomes, bad, capped = explore_config(real_kernel, args, cloud(ck), sch, w, cs, ps, exp, cap=cap)
+    ck0, _, kv = ck.partition("@")
+    exp = sequential(KERNELS[kv], args, ck0)
+    nex, outcomes, bad, capped = explore_config(KERNELS[kv], args, cloud(ck0), sch, w, cs, ps, exp, cap=cap)
     return dict(ck=ck, ps=ps, sch=sch, w=w, cs=cs, nex=nex, outcomes=len(outcomes), bad=bad[:3], capped=capped, exp=exp, nparts=math.ceil(NREAL / ps))
 
 
@@ -424,6 +448,12 @@ def run(ctx):
                 if tier == "quick" and ps == 2 and w == 3:
                     continue  # (4 partitions x 3 workers: 846 completion orders; thorough tier)
                 jobs.append((ck, ps, sch, w, cs, 1000 if tier == "quick" else 3000))
+    # other kernel objects: a balloon-altitude kernel and one re-configured after construction, under each scheduler
+    # family (the process scheduler ships a pickled copy of the object with every partition)
+    for kv in ("33km", "step"):
+        for ck in (("none", "map") if tier == "quick" else ("none", "mono", "map")):
+            for sch, w, cs in [("synchronous", 1, 1), ("threads", 2, 1), ("processes", 2, 1)]:
+                jobs.append((f"{ck}@{kv}", 3, sch, w, cs, 1000))
     for pos in range(NREAL):
         for ft in range(len(FAULT_TYPES)):
             for sch, w in (("synchronous", 1), ("threads", 2)):
@@ -526,10 +556,11 @@ def replay(case):
             ch = schedule.Chooser(case["choices"])
             o = run_batch(real_kernel(), args, cl, case["sch"], case["w"], case["cs"], case["ps"], ch)
             return [] if o.startswith("raised") else [("failure_surfaces_as_error", "the batch call raises", o)]
-        cl = cloud(case["cloud"])
-        exp = sequential(real_kernel, args, case["cloud"])
+        ck0, _, kv = str(case["cloud"]).partition("@")
+        cl = cloud(ck0)
+        exp = sequential(KERNELS[kv], args, ck0)
         ch = schedule.Chooser(case["choices"])
-        o = run_batch(real_kernel(), args, cl, case["sch"], case["w"], case["cs"], case["ps"], ch)
+        o = run_batch(KERNELS[kv](), args, cl, case["sch"], case["w"], case["cs"], case["ps"], ch)
         return [] if o == exp else [("batch_equals_one_at_a_time", exp, o)]
     if k == "uncontrolled":
         import dask
